@@ -133,26 +133,41 @@ func VerifHarness_C09_O1() {
 }
 
 // C09/O2 — anchor: raised only above the current anchor and only with more
-// than TrustCount signatures; never lowered.  Signature and validator counts
-// are symbolic (abstract-length containers), block index and current anchor
-// symbolic.
+// than one third of the validators OF THE BLOCK'S ROUND-RECEIVED; never lowered.
+// Two validator sets of symbolic sizes n0 (from round 0) and n1 (from a
+// symbolic round on); signature count, block index, block round-received and
+// current anchor symbolic.
 func VerifHarness_C09_O2() {
 	vn := verifNewNet(1, 100)
 	h := vn.h
-	n := verifNondetInt("n")
+	n0 := verifNondetInt("n0")
+	n1 := verifNondetInt("n1")
+	from := verifNondetInt("from")
 	k := verifNondetInt("k")
 	bidx := verifNondetInt("blockIndex")
+	rr := verifNondetInt("roundReceived")
 	hasAnchor := verifNondetBool("hasAnchor")
 	anchor := verifNondetInt("anchor")
-	verifAssume(n >= 1 && n <= 1<<20 && k >= 0 && k <= n && bidx >= 0 && bidx < 1<<40 && anchor >= 0 && anchor < 1<<40)
-	ps := &peers.PeerSet{
-		Peers:    verifAbstractLen[[]*peers.Peer]("peers", n),
-		ByPubKey: verifAbstractLen[map[string]*peers.Peer]("bypub", n),
+	verifAssume(n0 >= 1 && n0 <= 1<<20 && n1 >= 1 && n1 <= 1<<20 && from >= 1 && from < 1<<30)
+	verifAssume(k >= 0 && k <= 1<<20 && bidx >= 0 && bidx < 1<<30 && rr >= 0 && rr < 1<<30 && anchor >= 0 && anchor < 1<<30)
+	mk := func(tag string, n int) *peers.PeerSet {
+		return &peers.PeerSet{
+			Peers:    verifAbstractLen[[]*peers.Peer]("peers"+tag, n),
+			ByPubKey: verifAbstractLen[map[string]*peers.Peer]("bypub"+tag, n),
+		}
 	}
-	cache := h.Store.(*InmemStore).peerSetCache
-	cache.peerSets[3] = ps
-	cache.rounds = append(cache.rounds, 3)
-	b := &Block{Body: BlockBody{Index: bidx, RoundReceived: 4}, Signatures: verifAbstractLen[map[string]string]("sigs", k)}
+	cache := NewPeerSetCache()
+	cache.peerSets[0] = mk("0", n0)
+	cache.rounds = append(cache.rounds, 0)
+	cache.peerSets[from] = mk("1", n1)
+	cache.rounds = append(cache.rounds, from)
+	h.Store.(*InmemStore).peerSetCache = cache
+	n := n0
+	if rr >= from {
+		n = n1
+	}
+	verifAssume(k <= n)
+	b := &Block{Body: BlockBody{Index: bidx, RoundReceived: rr}, Signatures: verifAbstractLen[map[string]string]("sigs", k)}
 	if hasAnchor {
 		h.AnchorBlock = new(int)
 		*h.AnchorBlock = anchor
@@ -165,17 +180,17 @@ func VerifHarness_C09_O2() {
 			verifAssert("anchor-never-moves-backwards", na >= anchor)
 			if na != anchor {
 				verifAssert("anchor-raised-to-this-block", na == bidx && bidx > anchor)
-				verifAssert("anchor-raised-only-with-more-than-a-third", 3*k > n)
+				verifAssert("anchor-raised-only-with-more-than-a-third-of-its-rounds-validators", 3*k > n)
 			}
 		} else {
 			verifAssert("first-anchor-is-this-block", na == bidx)
-			verifAssert("first-anchor-only-with-more-than-a-third", 3*k > n)
+			verifAssert("first-anchor-only-with-more-than-a-third-of-its-rounds-validators", 3*k > n)
 		}
 		verifAssert("anchor-needs-a-signature", k >= 1 || (hasAnchor && na == anchor))
 	} else {
 		verifAssert("anchor-not-invented", !hasAnchor)
 	}
-	// all validators signing always qualifies a newer block
+	// all validators of the round signing always qualifies a newer block
 	if k == n && (!hasAnchor || bidx > anchor) {
 		verifAssert("fully-signed-newer-block-becomes-anchor", h.AnchorBlock != nil && *h.AnchorBlock == bidx)
 	}
